@@ -199,11 +199,13 @@ def tla_layout(lay):
     for r in lay["regs"]:
         regs.append({"kind": r["kind"], "width": r["width"], "reverse": r["reverse"], "parent": r["parent"], "subs": r["subs"], "rso": r["rso"],
                      "fields": [{"off": f["off"], "width": f["width"], "shr": f["shr"], "reset": f["reset"], "hidden": bool(f["hidden"])} for f in r["fields"]],
-                     "off": r["off"], "hidden": bool(r["hidden"]), "preset": r["preset"], "comp": r["comp"], "cond": r["cond"],
+                     "off": r["off"], "hidden": bool(r["hidden"]), "preset": r["preset"], "comp": r["comp"] if r["comp"] in ("", "inv_hi16", "inv_lo8") else "", "cond": r["cond"],
                      "declw": r.get("decl_width", 0), "subsw": r.get("subs_width", 0), "nmiss": len(r.get("missing_subs", [])),
-                     "presetdc": bool(r.get("preset_ambiguous")), "binfree": bool(r.get("binfree", False))})
+                     "presetdc": bool(r.get("preset_ambiguous")) or r["comp"].startswith("unknown"), "binfree": bool(r.get("binfree", False))})
     return {"regs": regs, "size": lay.get("size", 0), "hasbin": bool(lay.get("hasbin", True)), "seal": lay.get("seal", []), "sizefld": lay.get("sizefld", {"r": 0, "f": 0}),
-            "kind": lay.get("kind", "")}
+            "kind": lay.get("kind", ""), "leaves": [i for i, r in enumerate(regs, 1) if r["kind"] == "leaf"],
+            "computed": [i for i, r in enumerate(regs, 1) if r["kind"] == "leaf" and r["comp"] != ""], "hascond": any(r["cond"]["c"] != 0 for r in regs),
+            "free": [i for i, r in enumerate(regs, 1) if r["kind"] == "leaf" and (r["binfree"] or r["presetdc"])]}
 
 
 # ------------------------------------------------------------------ adapters
@@ -641,8 +643,8 @@ class Xmcd(Area):
     def config_text(self, obj):
         return obj.create_config()
 
-    def raw_values(self, obj, lay):
-        hregs, bregs = obj.header.registers, obj.config_block.registers
+    def raw_values(self, obj, lay, with_names=False):
+        hregs, bregs = obj.header.registers, obj.config_block.registers      # the second one is a deep copy: read it once
         res = []
         for r in lay["regs"]:
             if r["kind"] != "leaf":
@@ -652,6 +654,8 @@ class Xmcd(Area):
                 res.append((hregs if r["part"] == "header" else bregs).get_reg(r["uid"]).get_value(raw=True))
             except Exception:  # noqa: BLE001
                 res.append(None)
+        if with_names:
+            return res, [x.name for x in hregs] + [x.name for x in bregs]
         return res
 
 
